@@ -597,7 +597,10 @@ def install_cases(R):
         bounded_in_quick="the cases branch of combo_runner_core (enumeration cases x sub-grid, per-argument unions, placeholder filling) and the "
                          "recursion of infer_shape: replay/C02.py runs the real code on random case sets over 1-3 arguments x 5 result kinds x "
                          "shuffle on/off and enumerates nested list shapes up to depth 3 / width 3",
-        not_decided=["unbounded proof of the cases branch of combo_runner_core (loop invariants for case_coords unions not written yet)"],
+        not_decided=["cases branch of combo_runner_core: proved (variant combo_runner_core@cases) for a pure case list in flat form - one call per case with the case's "
+                     "own values looked up BY NAME (whatever order each dict lists its keys in), results in case order for every shuffle seed; the nested sparse "
+                     "form (per-argument unions, _unflatten with placeholders) and cases crossed with a sub-grid (index arithmetic i*P+s is non-linear) are "
+                     "decided by the bounded replay only"],
     )
     R.add(CR + "combo_runner_core@overlap", result="V", props=["C02"], types={"verbosity": "int"},
           fn_params={"fn": dict()},
@@ -628,4 +631,78 @@ def install_core_summary(R):
     base.fn_params = dict(grid.fn_params)
     base.notes = ("derived: clauses 'grid.*' are exactly the postconditions discharged for combo_runner_core@grid (C01), guarded by its "
                   "preconditions; for the cases branch only the file-system frame is assumed")
+    return R
+
+
+def install_cases_variant(R):
+    """combo_runner_core for a pure case list (cases given, no combos): calls, slots and order (C02, C03)."""
+    S = R.spec
+    base = R.get(CR + "combo_runner_core@grid")
+    CASEG = [
+        ("names", "combo_values == empty_seq() and combo_args == empty_seq() and case_args == CaseArgs(cases) and fn_args == case_args and is_seq(fn_args) "
+                  "and sdistinct(fn_args) "
+                  "and is_seq(case_values) and slen(case_values) == slen(cases) and "
+                  "forall(lambda i: implies(0 <= i and i < slen(case_values), is_seq(sget(case_values, i)) and slen(sget(case_values, i)) == slen(case_args) and "
+                  "forall(lambda j: implies(0 <= j and j < slen(case_args), sget(sget(case_values, i), j) == mat(sget(cases, i), sget(case_args, j))))))"),
+        ("grid", "is_seq(locs) and is_seq(settings) and slen(locs) == slen(case_values) and slen(settings) == slen(locs) and "
+                 "forall(lambda g: implies(0 <= g and g < slen(locs), sget(locs, g) == sget(case_values, g) and "
+                 "sget(settings, g) == Kws(fn_args, sget(locs, g), constants)))"),
+        ("cases", "truthy(cases) and is_seq(cases) and slen(cases) == slen(old(cases)) and "
+                  "forall(lambda i: implies(0 <= i and i < slen(cases), sget(cases, i) == sget(old(cases), i)))"),
+    ]
+    cuts = {}
+    for k, spec in base.cuts.items():
+        inv = [c for c in spec["inv"] if c[0] not in ("names", "grid", "no_cases")]
+        cuts[k] = dict(inv=CASEG + inv)
+    pre = [
+        ("cases", "is_seq(cases) and slen(cases) >= 1 and forall(lambda i: implies(0 <= i and i < slen(cases), is_dict(sget(cases, i)) and "
+                  "SameKeys(sget(cases, i), sget(cases, 0))))"),
+        ("no_combos", "not truthy(combos)"),
+        ("constants", "is_dict(constants)"),
+        ("info", "info is None or is_dict(info)"),
+        ("executor", "executor != 'ray'"),
+        ("flags", "isinstance(split, bool) and isinstance(flat, bool)"),
+        # the nested (sparse) form goes through the per-argument unions and _unflatten: bounded only (replay/C02.py)
+        ("flat_form", "flat"),
+    ]
+
+    ENUM = ("is_seq(locs) and is_seq(settings) and slen(locs) == _N_ and slen(settings) == _N_ and "
+            "forall(lambda g: implies(0 <= g and g < _N_, sget(locs, g) == sget(case_values, g) and "
+            "sget(settings, g) == Kws(fn_args, sget(locs, g), constants)))")
+
+    def same_keys(eng, fr, a, b):
+        """the same key SET (the order in which a case dict lists its keys is the caller's business)"""
+        av, bv = eng.as_V(a), eng.as_V(b)
+        k = z3.Const(fresh_name("k"), V)
+        return mk_bool(z3.And(T.slen(T.mkeys(av)) == T.slen(T.mkeys(bv)), z3.ForAll([k], T.mhas(av, k) == T.mhas(bv, k), patterns=[T.mhas(av, k)])))
+    S["SameKeys"] = same_keys
+
+    R.add(CR + "combo_runner_core@cases", result="V", props=["C02", "C03"], types={"verbosity": "int"},
+          fn_params={"fn": dict()},
+          requires=pre,
+          modifies=["ghost:calls"],
+          loops={
+              "loop0": dict(idx="_c", modifies=["locs", "settings", "case_coords", "loc", "kws", "arg", "v", "combo_params", "case_params"], inv=[
+                  ("enumerated", ENUM.replace("_N_", "_c"))]),
+              "loop1": dict(idx="_z", modifies=["case_coords", "arg", "v"], inv=[("coords", "True")]),
+              "loop2": dict(idx="_j", modifies=["locs", "settings", "loc", "kws", "combo_params"], inv=[
+                  ("enumerated", ENUM.replace("_N_", "(_c + _j)"))]),
+              "loop3": dict(idx="_a", modifies=["case_coords", "arg"], inv=[("coords", "True")]),
+              "comp3": dict(idx="_v", inv=[
+                  ("components", "is_seq(_acc_comp3) and slen(_acc_comp3) == _v and implies(flat, forall(lambda v: implies(0 <= v and v < _v, "
+                                 "sget(_acc_comp3, v) == sget(transpose_(results_linear), v))))")]),
+          },
+          cuts=cuts,
+          ghost_out={"locs": "V", "results_linear": "V", "settings": "V", "case_values": "V"},
+          out_params=["info"],
+          ensures=[
+              ("one_call_per_case", "ncalls() == old(ncalls()) + slen(cases) and LogPrefixKept(old(ncalls()))"),
+              ("every_case_called_with_its_own_values_by_name",
+               "forall(lambda t: implies(0 <= t and t < slen(cases), forall(lambda j: implies(0 <= j and j < slen(CaseArgs(cases)) and "
+               "not mhas(constants, sget(CaseArgs(cases), j)), "
+               "mat(call_kw(old(ncalls()) + t), sget(CaseArgs(cases), j)) == mat(sget(cases, Ord(shuffle, slen(cases), t)), sget(CaseArgs(cases), j))))))"),
+              ("flat_in_case_order", "implies(flat and not split, is_seq(result) and slen(result) == slen(cases) and "
+                                     "forall(lambda t: implies(0 <= t and t < slen(result), sget(result, Ord(shuffle, slen(result), t)) == call_ret(old(ncalls()) + t))))"),
+          ],
+          raises={"AnyError": dict(), "ValueError": dict(), "TypeError": dict()})
     return R
